@@ -42,7 +42,9 @@ class SessionJob:
               "flags": self.flags, "sigver": self.sigver, "z": self.z, "succ": self.succ.hex(), "hist": self.hist,
               "cmp": self.cmp, "weight": self.weight, "pretend": [[a.hex(), b.hex()] for a, b in self.pretend]}
         t = self.txctx
-        if t:
+        if t and self.auto:
+            ev.update({"auto": True, "tx": t["tx"], "txin": t["txin"], "select": t.get("select", -1) if t.get("select") is not None else -1})
+        elif t:
             ev.update({"tx": t["tx"], "nin": t.get("nin", 0), "amount": int(t.get("amount", 0)).to_bytes(8, "little").hex(),
                        "spent": [[int(a).to_bytes(8, "little").hex(), hx(s)] for a, s in t.get("spent", [])],
                        "annex": hx(t["annex"]) if t.get("annex") else "", "leafhash": hx(t["leafhash"]) if t.get("leafhash") else ""})
@@ -64,7 +66,7 @@ class SessionJob:
             o += " tx=%s caplog=1" % t["tx"]
             if t.get("amounts"): o += " amounts=" + t["amounts"]
             if t.get("txin"): o += " txin=" + t["txin"]
-            if t.get("select") is not None: o += " select=%d" % t["select"]
+            if t.get("select") is not None and t["select"] >= 0: o += " select=%d" % t["select"]
             if t.get("leafhash"): o += " leafhash=" + hx(t["leafhash"])
             if "annex" in t: o += " annex=" + (hx(t["annex"]) if t["annex"] else "-")
             if t.get("preamble"): o += " preamble=1"
